@@ -1,5 +1,7 @@
 import Girc.Proofs.TransModes
 import Girc.Proofs.TransModes2
+import Girc.Proofs.TransModes4
+import Girc.Proofs.TransPerms
 /-
   Tie (TieModes): the function bodies regenerated from the Go source on every run (Girc/Gen/Funcs.lean, written by
   tools/extract/translate.go) equal the hand-written models the property theorems of C04 and C05 are about, for ALL inputs.
@@ -53,5 +55,88 @@ example : Fn.parseUserPrefix [0x40, 0x2B, 0x6E] = .ok ([0x40, 0x2B], [0x6E], tru
 -- "@+": Go returns ("@+", "", false), the model ("", "", false)
 example : Fn.parseUserPrefix [0x40, 0x2B] = .ok ([0x40, 0x2B], [], false) := by rfl
 example : parseUserPrefix [0x40, 0x2B] = ([], [], false) := by rfl
+
+/-! ### modes.go, value level of the stateful code (phase 3): `CModes` values with their `[]CMode`, pointer receivers that
+    are written through (`Apply`, `Perms.set` …: the generated function returns the new pointee) -/
+
+open Girc.Proofs.Trans (asciiModes namesNodup applyOneGo getGo stringGo permsStep)
+
+theorem tie_NewCModes : ∀ channelModes userPrefixes : Bytes,
+    Fn.NewCModes channelModes userPrefixes = .ok (newCModes channelModes userPrefixes) := Proofs.Trans.NewCModes_eq
+-- "b,k,l,imnpst" and the degenerate "b,k" (padded with empty classes)
+example : Fn.NewCModes [0x62, 0x2C, 0x6B, 0x2C, 0x6C, 0x2C, 0x69, 0x6D] [0x6F, 0x76] =
+    .ok { raw := [0x62, 0x2C, 0x6B, 0x2C, 0x6C, 0x2C, 0x69, 0x6D], listArgs := [0x62], argsM := [0x6B], setArgs := [0x6C],
+          noArgs := [0x69, 0x6D], prefixes := [0x6F, 0x76], modes := [] } := by rfl
+example : (Fn.NewCModes [0x62, 0x2C, 0x6B] []).map (·.noArgs) = .ok [] := by rfl
+
+theorem tie_CModes_Parse : ∀ (c : CModes) (flags : Bytes) (args : List Bytes),
+    Fn.CModes_Parse (some c) flags args = .ok (c.parse flags args) := Proofs.Trans.CModes_Parse_eq
+-- "+kl-b" key 10 mask
+example : Fn.CModes_Parse (some (newCModes [0x62, 0x2C, 0x6B, 0x2C, 0x6C, 0x2C, 0x69] [0x6F, 0x76]))
+    [0x2B, 0x6B, 0x6C, 0x2D, 0x62] [[0x78], [0x31, 0x30], [0x6D]] =
+    .ok [⟨true, 0x6B, true, [0x78]⟩, ⟨true, 0x6C, true, [0x31, 0x30]⟩, ⟨false, 0x62, false, [0x6D]⟩] := by rfl
+
+/-- `Apply`, exactly as the Go code performs it (only the FIRST stored entry of a name is replaced / removed). -/
+theorem tie_CModes_Apply_go : ∀ (c : CModes) (changes : List CMode),
+    Fn.CModes_Apply (some c) changes = .ok (some { c with modes := changes.foldl applyOneGo c.modes }) :=
+  Proofs.Trans.CModes_Apply_go
+/-- … which is the model's `CModes.apply` on every state whose stored modes are unique by name; the invariant holds of
+    `NewCModes` (no stored modes) and is preserved by `apply`. -/
+theorem tie_CModes_Apply : ∀ (c : CModes) (changes : List CMode), namesNodup c.modes →
+    Fn.CModes_Apply (some c) changes = .ok (some (c.apply changes)) := Proofs.Trans.CModes_Apply_eq
+theorem tie_CModes_Apply_inv : ∀ (c : CModes) (changes : List CMode), namesNodup c.modes →
+    namesNodup (c.apply changes).modes := Proofs.Trans.CModes_Apply_nodup
+theorem tie_CModes_Apply_nil : ∀ changes : List CMode, Fn.CModes_Apply none changes = .error .nilDeref :=
+  Proofs.Trans.CModes_Apply_nil
+example : (Fn.CModes_Apply (some (newCModes [0x62, 0x2C, 0x6B, 0x2C, 0x6C, 0x2C, 0x69] []))
+    [⟨true, 0x6B, true, [0x78]⟩, ⟨true, 0x69, true, []⟩, ⟨true, 0x6B, true, [0x79]⟩, ⟨false, 0x69, true, []⟩]).map
+      (fun r => r.map (·.modes)) = .ok (some [⟨true, 0x6B, true, [0x79]⟩]) := by rfl
+
+/-- `HasMode` / `Get` / `String`, exactly as the Go code computes them: `string(name)` is the UTF-8 encoding of the code
+    point `name` (TWO bytes from 0x80 on) … -/
+theorem tie_CModes_HasMode_go : ∀ (c : CModes) (mode : Bytes),
+    Fn.CModes_HasMode (some c) mode = .ok (c.modes.any (fun m => Go.strOfByte m.name == mode)) :=
+  Proofs.Trans.CModes_HasMode_go
+theorem tie_CModes_Get_go : ∀ (c : CModes) (mode : Bytes), Fn.CModes_Get (some c) mode = .ok (getGo c.modes mode) :=
+  Proofs.Trans.CModes_Get_go
+theorem tie_CModes_String_go : ∀ c : CModes, Fn.CModes_String (some c) = .ok (stringGo c.modes) :=
+  Proofs.Trans.CModes_String_go
+/-- … which are the models `hasMode` / `get` / `toBytes` whenever the stored mode letters are ASCII.  For a stored mode byte
+    ≥ 0x80 the models DISAGREE with the code (see the examples and TRANSLATOR_NOTES §8). -/
+theorem tie_CModes_HasMode : ∀ (c : CModes) (mode : Bytes), asciiModes c.modes →
+    Fn.CModes_HasMode (some c) mode = .ok (c.hasMode mode) := Proofs.Trans.CModes_HasMode_eq
+theorem tie_CModes_Get : ∀ (c : CModes) (mode : Bytes), asciiModes c.modes →
+    Fn.CModes_Get (some c) mode = .ok (match c.get mode with | some a => (a, true) | none => ([], false)) :=
+  Proofs.Trans.CModes_Get_eq
+theorem tie_CModes_String : ∀ c : CModes, asciiModes c.modes → Fn.CModes_String (some c) = .ok c.toBytes :=
+  Proofs.Trans.CModes_String_eq
+example : Fn.CModes_String (some { newCModes [] [] with modes := [⟨true, 0x6B, true, [0x78]⟩, ⟨true, 0x69, true, []⟩] }) =
+    .ok [0x2B, 0x6B, 0x69, 0x20, 0x78] := by rfl
+example : Fn.CModes_Get (some { newCModes [] [] with modes := [⟨true, 0x6B, true, [0x78]⟩] }) [0x6B] = .ok ([0x78], true) := by rfl
+-- a stored mode byte 0xE9: Go's string(byte(0xE9)) is "\xC3\xA9"
+example : Fn.CModes_HasMode (some { newCModes [] [] with modes := [⟨true, 0xE9, true, []⟩] }) [0xE9] = .ok false := by rfl
+example : ({ newCModes [] [] with modes := [⟨true, 0xE9, true, []⟩] } : CModes).hasMode [0xE9] = true := by rfl
+example : Fn.CModes_String (some { newCModes [] [] with modes := [⟨true, 0xE9, true, []⟩] }) = .ok [0x2B, 0xC3, 0xA9] := by rfl
+example : ({ newCModes [] [] with modes := [⟨true, 0xE9, true, []⟩] } : CModes).toBytes = [0x2B, 0xE9] := by rfl
+
+theorem tie_CModes_Copy : ∀ c : CModes, Fn.CModes_Copy (some c) = .ok c := Proofs.Trans.CModes_Copy_eq
+example : Fn.CModes_Copy (some { newCModes [0x62] [] with modes := [⟨true, 0x6B, true, [0x78]⟩] }) =
+    .ok { newCModes [0x62] [] with modes := [⟨true, 0x6B, true, [0x78]⟩] } := by rfl
+
+theorem tie_Perms_reset : ∀ p : Perms, Fn.Perms_reset (some p) = .ok (some {}) := Proofs.Trans.Perms_reset_eq
+/-- `(*Perms).set(prefix, add)`: one flag per prefix symbol, after a reset unless `add`. -/
+theorem tie_Perms_set_go : ∀ (p : Perms) (s : Bytes) (add : Bool),
+    Fn.Perms_set (some p) s add = .ok (some (s.foldl permsStep (if add then p else {}))) := Proofs.Trans.Perms_set_go
+theorem tie_Perms_set : ∀ (p : Perms) (s : Bytes), Fn.Perms_set (some p) s false = .ok (some (permsFromPrefix s)) :=
+  Proofs.Trans.Perms_set_eq
+theorem tie_Perms_setFromMode : ∀ (p : Perms) (m : CMode),
+    Fn.Perms_setFromMode (some p) m = .ok (some (p.setFromMode m)) := Proofs.Trans.Perms_setFromMode_eq
+theorem tie_Perms_IsAdmin : ∀ p : Perms, Fn.Perms_IsAdmin p = .ok (p.owner || p.admin || p.op) :=
+  Proofs.Trans.Perms_IsAdmin_eq
+theorem tie_Perms_IsTrusted : ∀ p : Perms, Fn.Perms_IsTrusted p = .ok (p.owner || p.admin || p.op || p.halfop || p.voice) :=
+  Proofs.Trans.Perms_IsTrusted_eq
+example : Fn.Perms_set (some { owner := true }) [0x40, 0x2B] false = .ok (some { op := true, voice := true }) := by rfl
+example : Fn.Perms_set (some { owner := true }) [0x40] true = .ok (some { owner := true, op := true }) := by rfl
+example : Fn.Perms_setFromMode (some { op := true }) ⟨false, 0x6F, false, [0x6E]⟩ = .ok (some {}) := by rfl
 
 end Girc.Props.TieModes
